@@ -30,6 +30,9 @@ pub struct Block {
 #[derive(Clone, Debug, Default)]
 pub struct Model {
     pub blocks: Vec<Block>,
+    /// only for corpus-sized files: obfuscated class name -> index of the LAST block with that name
+    /// (the same R8, pre-computed; absent for the enumerated scopes, where `block` scans)
+    pub index: Option<std::collections::HashMap<S, usize>>,
 }
 
 #[derive(Clone, Copy, PartialEq, Eq, Hash, Debug)]
@@ -97,11 +100,24 @@ impl Model {
                 }
             }
         }
-        Model { blocks }
+        Model { blocks, index: None }
+    }
+
+    pub fn fold_indexed(lines: &[Line]) -> Model {
+        let mut m = Model::fold(lines);
+        let mut idx = std::collections::HashMap::new();
+        for (i, b) in m.blocks.iter().enumerate() {
+            idx.insert(b.obf, i); // later blocks overwrite earlier ones: last wins
+        }
+        m.index = Some(idx);
+        m
     }
 
     /// R8
     pub fn block(&self, obf_class: &str) -> Option<&Block> {
+        if let Some(idx) = &self.index {
+            return idx.get(obf_class).map(|i| &self.blocks[*i]);
+        }
         self.blocks.iter().rev().find(|b| b.obf == obf_class)
     }
 
